@@ -65,7 +65,9 @@ Statements (k = the translation of what follows).
       c) => FOk (..).  At the loop: fbind (<f>_while<n> inf F F ..) (fun '(..) => k).  F is the fuel parameter of the function.
   for a, b in c.items() / d.items(): B -> Fixpoint <f>_for<n> over the list (no break / continue)
   for a, b in [(const, const), ..]: B -> unrolled
-Module checks: the named classes exist once, bases as expected; signatures exactly as in SPECS.
+Module checks: the named classes exist once, bases as expected; signatures exactly as in SPECS; no module-level rebinding of a name
+the rules interpret; inside a translated function the names in RESERVED (int, len, next, enumerate, the class names, ...) are never
+assigned, and there is no global / nonlocal / lambda / walrus; a `for` body may not change the object it iterates over.
 """
 import ast
 import os
@@ -96,6 +98,9 @@ PARENT = ['_seq_arguments', '_map_arguments', 'warnings']
 IGNORED_NAMES = {'items', 'text', 'self._items'}
 WARN_TEXT = 'self.warnings += [exc_type(*args, **kwargs)]'
 NEXT = 'next(si)'
+# names the rules give a fixed meaning to: never assignable inside a translated function
+RESERVED = {'self', 'parent', 'int', 'len', 'next', 'enumerate', 'frozenset', 'isinstance', 'list', 'collections', 'Conversion', 'VariableWidth',
+            'VariablePrecision', '_info', 'SSIZE_MAX', 'next_si', 'StopIteration', 'IndexError', 'RuntimeError'} | set(ERR_CLASSES)
 
 
 def lit_str(s):
@@ -140,11 +145,8 @@ def join_kinds(ks):
     if len(ks) == 1:
         return ks.pop()
     for dom, k in JOIN.items():
-        if ks <= dom and (k != 'pnum' or True):
-            if k == 'pnum' and not ks & {'Z', 'pnum', 'ellipsis'}:
-                continue
-            if k != 'pnum' and not ks & {k[3:], k}:
-                continue
+        plain = {'pnum': {'Z', 'ellipsis', 'pnum'}, 'optstr': {'str', 'optstr'}, 'optchr': {'chr', 'optchr'}}[k]
+        if ks <= dom and ks & plain:
             return k
     raise Unsupported('cannot join kinds %s' % sorted(ks))
 
@@ -267,6 +269,9 @@ class Fn:
                 number(c)
         number(fdef)
         self.has_while = any(isinstance(x, ast.While) for x in ast.walk(fdef))
+        bad = [x for x in assigned_in(fdef.body) if x in RESERVED]
+        if bad or any(isinstance(x, (ast.Global, ast.Nonlocal, ast.Lambda, ast.NamedExpr)) for x in ast.walk(fdef)):
+            raise Unsupported('a name with a fixed meaning is rebound in %s: %s' % (fdef.name, bad))
         self.next_si = None     # handler statements of the local function next_si
         self.next_si_reads = []
         self.loop = None        # (continue_k, break_k) of the innermost loop being translated
@@ -578,7 +583,7 @@ class Fn:
         name = tname(t)
         if name is None:
             raise Unsupported('assignment target ' + ast.unparse(t))
-        if name in ('self', 'parent', 'inf', 'F', 'fuel'):
+        if name in RESERVED:
             raise Unsupported('assignment to ' + name)
         if isinstance(s.value, ast.Name) and s.value.id == '_info' and '_info' not in env and isinstance(t, ast.Name):
             return k(dict(env, **{name: 'info'}))
@@ -869,6 +874,8 @@ class Fn:
             raise Unsupported('for over the items of a %s' % src[1])
         if a in env or b in env:
             raise Unsupported('for target shadows a variable')
+        if tname(it.func.value) in assigned_in(s.body):
+            raise Unsupported('the loop changes the object it iterates over')
         name = '%s_for%d' % (self.coqname, self.loop_ids[id(s)])
         params, assigned = self.loop_sig(ast.Module(body=s.body, type_ignores=[]), env)
         kinds = {v: env[v] for v in params}
